@@ -3,34 +3,41 @@
 // an epoch source (upstream) and mapping stubs (sub-expressions), pulls it to
 // exhaustion in every epoch and compares what came out with the construct's
 // documented denotation applied to every input stack separately.
+//
+// Scenario digits (see ops.hh): number of inputs n <= VP_T, size of the first re-feed
+// epoch, per sub-expression and input the number of results (<= maxcnt).  Payload
+// tokens (input tokens, every result token) are symbolic.
 #define VP_OPS_IMPL
 #include "ops.hh"
 #include "value-seq.hh"
 #include "value-str.hh"
 
 #ifndef VP_T
-#define VP_T 3          // input stacks
+#define VP_T 2          // input stacks
 #endif
-#ifndef VP_E
 #define VP_E 2          // epochs (re-feeds of the upstream)
+#ifndef VP_MAXC
+#define VP_MAXC 1       // max results per input of a sub-expression in the 1- and 2-sub-expression harnesses
 #endif
 #define MAXF 6          // max results per input of a denotation
 
 struct denot { unsigned n; uint64_t v[MAXF]; };
 
-// inputs: stack i = [i, tok_i]; the below-slot identifies the input a result came from
+// inputs: stack i = [i, tok_i]; the id slot identifies the input a result came from
 struct inputs
 {
   unsigned n;
   uint64_t tok[VP_T];
   unsigned ep_end[VP_E];      // stacks [ep_end[e-1], ep_end[e]) are fed in epoch e
+  bool valid;
 };
 
 static inline void
-nd_inputs (inputs &in, U_src &u)
+mk_inputs (cfgdec &d, inputs &in, U_src &u)
 {
-  unsigned n = vp_nondet_u8 ();
-  vp_assume (n <= VP_T);
+  unsigned n = d.take (VP_T + 1);
+  unsigned first = d.take (VP_T + 1);
+  in.valid = first <= n;
   in.n = n;
   u.m_n = n;
   u.m_two = true;
@@ -40,21 +47,19 @@ nd_inputs (inputs &in, U_src &u)
       u.m_tok[i] = in.tok[i];
       u.m_below[i] = i;
     }
-  unsigned prev = 0;
-  for (unsigned e = 0; e < VP_E; ++e)
-    {
-      unsigned end = vp_nondet_u8 ();
-      vp_assume (end >= prev && end <= n);
-      if (e == VP_E - 1)
-        vp_assume (end == n);
-      in.ep_end[e] = end;
-      prev = end;
-    }
+  in.ep_end[0] = first;
+  in.ep_end[1] = n;
+}
+
+static inline unsigned
+epoch_of (inputs const &in, unsigned i)
+{
+  return i < in.ep_end[0] ? 0 : 1;
 }
 
 // pull X to exhaustion in every epoch
-template <unsigned P> static inline void
-drive (std::shared_ptr <op> const &x, U_src const &u, layout &l, inputs const &in, reslog &log)
+static inline void
+drive (std::shared_ptr <op> const &x, U_src const &u, layout &l, inputs const &in, reslog &log, unsigned maxpulls)
 {
   scon sc {l};
   x->state_con (sc);
@@ -62,7 +67,7 @@ drive (std::shared_ptr <op> const &x, U_src const &u, layout &l, inputs const &i
     {
       u.feed (sc, in.ep_end[e]);
       bool drained = false;
-      for (unsigned p = 0; p < P; ++p)
+      for (unsigned p = 0; p < maxpulls; ++p)
         {
           auto r = x->next (sc);
           if (r == nullptr)
@@ -80,160 +85,199 @@ drive (std::shared_ptr <op> const &x, U_src const &u, layout &l, inputs const &i
   x->state_des (sc);
 }
 
-static inline unsigned
-epoch_of (inputs const &in, unsigned i)
-{
-  unsigned e = 0;
-  for (unsigned k = 0; k < VP_E; ++k)
-    if (i >= in.ep_end[k])
-      e = k + 1;
-  return e;
-}
-
 // compare the log with the denotation F_i of every input
 static inline void
 check (inputs const &in, denot const *F, reslog const &log, unsigned exp_depth)
 {
   unsigned total = 0;
-  for (unsigned i = 0; i < VP_T; ++i)
-    if (i < in.n)
-      total += F[i].n;
+  for (unsigned i = 0; i < in.n; ++i)
+    total += F[i].n;
   vp_assert (log.n == total, "number of results = sum over inputs of the construct's results for that input");
-  for (unsigned r = 0; r < 16; ++r)
-    if (r < log.n)
-      {
-        vp_assert (log.depth[r] == exp_depth, "result depth");
-        vp_assert (log.below[r] < in.n, "result derives from one of the inputs");
-        if (log.below[r] < in.n)
-          vp_assert (log.epoch[r] == epoch_of (in, log.below[r]), "result is yielded in the epoch its input was fed (nothing kept back)");
-      }
-  for (unsigned i = 0; i < VP_T; ++i)
-    if (i < in.n)
-      {
-        // multiset equality per input, by token value
-        for (uint64_t v = 0; v < VP_D; ++v)
+  for (unsigned r = 0; r < log.n; ++r)
+    {
+      vp_assert (log.depth[r] == exp_depth, "result depth");
+      vp_assert (log.below[r] < in.n, "result derives from one of the inputs");
+      if (log.below[r] < in.n)
+        vp_assert (log.epoch[r] == epoch_of (in, log.below[r]), "result is yielded in the epoch its input was fed (nothing kept back)");
+    }
+  for (unsigned i = 0; i < in.n; ++i)
+    {
+      // the results for input i, in the order they came out
+      unsigned e = epoch_of (in, i);
+      unsigned lo = e == 0 ? 0 : in.ep_end[0];
+      bool alone = in.ep_end[e] - lo == 1;
+      unsigned k = 0;
+      bool used[MAXF] = {false, false, false, false, false, false};
+      for (unsigned r = 0; r < log.n; ++r)
+        if (log.below[r] == i)
           {
-            unsigned want = 0, got = 0;
-            for (unsigned k = 0; k < MAXF; ++k)
-              if (k < F[i].n && F[i].v[k] == v)
-                ++want;
-            for (unsigned r = 0; r < 16; ++r)
-              if (r < log.n && log.below[r] == i && log.top[r] == v)
-                ++got;
-            vp_assert (want == got, "multiset of results for each input equals the denotation on that input alone");
+            if (alone)
+              {
+                if (k < F[i].n)
+                  vp_assert (log.top[r] == F[i].v[k], "a construct fed one stack yields its results in documented order");
+              }
+            else
+              {
+                // multiset: match against a not yet used denotation element with the same token
+                bool found = false;
+                for (unsigned j = 0; j < F[i].n; ++j)
+                  if (!found && !used[j] && F[i].v[j] == log.top[r])
+                    {
+                      used[j] = true;
+                      found = true;
+                    }
+                vp_assert (found, "every result for an input is one of the construct's results for that input (multiset)");
+              }
+            ++k;
           }
-        // order when the input was alone in its epoch
-        unsigned e = epoch_of (in, i);
-        unsigned lo = e == 0 ? 0 : in.ep_end[e - 1];
-        if (in.ep_end[e] - lo == 1)
-          {
-            unsigned k = 0;
-            for (unsigned r = 0; r < 16; ++r)
-              if (r < log.n && log.below[r] == i)
-                {
-                  if (k < MAXF)
-                    vp_assert (log.top[r] == F[i].v[k], "a construct fed one stack yields its results in documented order");
-                  ++k;
-                }
-          }
-      }
+      vp_assert (k == F[i].n, "as many results per input as the denotation on that input alone");
+    }
 }
 
 static inline void
-app (denot &d, S_map const &s, uint64_t t)
+app (denot &d, S_map const &s, unsigned i)
 {
-  for (unsigned k = 0; k < VP_M; ++k)
-    if (k < s.m_cnt[t] && d.n < MAXF)
-      d.v[d.n++] = s.m_out[t][k];
+  for (unsigned k = 0; k < s.m_cnt[i]; ++k)
+    if (d.n < MAXF)
+      d.v[d.n++] = s.m_out[i][k];
 }
 
+#ifdef VP_ONE_SCENARIO
+#define VP_SCENARIOS(name, N)                                           \
+  static void name##__run (uint64_t k);                                 \
+  VP_HARNESS (name) { name##__run (VP_ONE_SCENARIO); }                  \
+  static void name##__run (uint64_t k)
+#else
+#define VP_SCENARIOS(name, N)                                           \
+  static void name##__run (uint64_t k);                                 \
+  VP_HARNESS (name)                                                     \
+  {                                                                     \
+    uint64_t lo = vp_range_lo (), hi = vp_range_hi ();                  \
+    if (hi > (N)) hi = (N);                                             \
+    uint64_t scen = vp_nondet_u64 ();                                   \
+    vp_assume (scen >= lo && scen < hi);                                \
+    for (uint64_t k = lo; k < hi; ++k)                                  \
+      if (scen == k)                                                    \
+        name##__run (k);                                                \
+  }                                                                     \
+  static void name##__run (uint64_t k)
+#endif
+
+#define NIN ((VP_T + 1) * (VP_T + 1))
+static inline uint64_t ipow (uint64_t b, unsigned e) { uint64_t r = 1; for (unsigned i = 0; i < e; ++i) r *= b; return r; }
+
 // ------------------------------------------------------------------ ALT: (S0, S1)
-VP_HARNESS (c01_alt2)
+#define N_ALT2 (NIN * ipow (VP_MAXC + 1, 2 * VP_T))
+VP_SCENARIOS (c01_alt2, N_ALT2)
 {
+  cfgdec d {k};
   layout l;
   auto u = std::make_shared <U_src> (l);
   inputs in;
-  nd_inputs (in, *u);
+  mk_inputs (d, in, *u);
   auto merge = std::make_shared <op_merge> (l, u);
   std::shared_ptr <S_map> s[2];
   for (unsigned b = 0; b < 2; ++b)
     {
       auto tine = std::make_shared <op_tine> (*merge, b);
       s[b] = std::make_shared <S_map> (l, tine);
-      s[b]->randomize ();
+      s[b]->configure (d, VP_T, VP_MAXC);
       merge->add_branch (s[b]);
     }
+  for (unsigned b = 0; b < 2; ++b)
+    for (unsigned i = in.n; i < VP_T; ++i)
+      if (s[b]->m_cnt[i] != 0)
+        in.valid = false;       // duplicate encoding of the same scenario
+  if (!in.valid)
+    return;
   reslog log;
-  drive <VP_T * 2 * VP_M + 1> (merge, *u, l, in, log);
+  drive (merge, *u, l, in, log, VP_T * 2 * VP_M + 1);
   denot F[VP_T];
   for (unsigned i = 0; i < VP_T; ++i)
     {
       F[i].n = 0;
-      app (F[i], *s[0], in.tok[i]);
-      app (F[i], *s[1], in.tok[i]);
+      app (F[i], *s[0], i);
+      app (F[i], *s[1], i);
     }
   check (in, F, log, 2);
 }
 
 // ------------------------------------------------------------------ OR: (S0 || S1)
-VP_HARNESS (c01_or2)
+VP_SCENARIOS (c01_or2, N_ALT2)
 {
+  cfgdec d {k};
   layout l;
   auto u = std::make_shared <U_src> (l);
   inputs in;
-  nd_inputs (in, *u);
+  mk_inputs (d, in, *u);
   auto o = std::make_shared <op_or> (l, u);
   std::shared_ptr <S_map> s[2];
   for (unsigned b = 0; b < 2; ++b)
     {
       auto origin = std::make_shared <op_origin> (l);
       s[b] = std::make_shared <S_map> (l, origin);
-      s[b]->randomize ();
+      s[b]->configure (d, VP_T, VP_MAXC);
       o->add_branch (origin, s[b]);
     }
+  for (unsigned b = 0; b < 2; ++b)
+    for (unsigned i = in.n; i < VP_T; ++i)
+      if (s[b]->m_cnt[i] != 0)
+        in.valid = false;
+  if (!in.valid)
+    return;
   reslog log;
-  drive <VP_T * VP_M + 1> (o, *u, l, in, log);
+  drive (o, *u, l, in, log, VP_T * VP_M + 1);
   denot F[VP_T];
   for (unsigned i = 0; i < VP_T; ++i)
     {
       F[i].n = 0;
-      app (F[i], *s[0], in.tok[i]);
+      app (F[i], *s[0], i);
       if (F[i].n == 0)
-        app (F[i], *s[1], in.tok[i]);
+        app (F[i], *s[1], i);
     }
   check (in, F, log, 2);
 }
 
 // ------------------------------------------------------------------ ASSERT: ?P
-VP_HARNESS (c01_assert)
+#define N_ASSERT (NIN * 9 * (VP_T > 2 ? 3 : 1))
+VP_SCENARIOS (c01_assert, N_ASSERT)
 {
+  cfgdec d {k};
   layout l;
   auto u = std::make_shared <U_src> (l);
   inputs in;
-  nd_inputs (in, *u);
+  mk_inputs (d, in, *u);
   auto p = std::make_unique <P_sym> ();
-  p->randomize ();
+  p->configure (d, VP_T);
   P_sym const *pp = p.get ();
+  for (unsigned i = in.n; i < VP_T; ++i)
+    if (pp->m_res[i] != pred_result::no)
+      in.valid = false;
+  if (!in.valid)
+    return;
   std::shared_ptr <op> a = std::make_shared <op_assert> (u, std::move (p));
   reslog log;
-  drive <VP_T + 1> (a, *u, l, in, log);
+  drive (a, *u, l, in, log, VP_T + 1);
   denot F[VP_T];
   for (unsigned i = 0; i < VP_T; ++i)
     {
       F[i].n = 0;
-      if (pp->m_res[in.tok[i]] == pred_result::yes)
+      if (pp->m_res[i] == pred_result::yes)
         F[i].v[F[i].n++] = in.tok[i];
     }
   check (in, F, log, 2);
 }
 
 // ------------------------------------------------------------------ IFELSE: if Sc then St else Se
-VP_HARNESS (c01_ifelse)
+// condition and arms yield 0..1 results
+#define N_IFELSE (NIN * ipow (8, VP_T))
+VP_SCENARIOS (c01_ifelse, N_IFELSE)
 {
+  cfgdec d {k};
   layout l;
   auto u = std::make_shared <U_src> (l);
   inputs in;
-  nd_inputs (in, *u);
+  mk_inputs (d, in, *u);
   std::shared_ptr <op_origin> org[3];
   std::shared_ptr <S_map> s[3];
   layout sub[3] = {l, l, l};
@@ -241,35 +285,48 @@ VP_HARNESS (c01_ifelse)
     {
       org[b] = std::make_shared <op_origin> (sub[b]);
       s[b] = std::make_shared <S_map> (sub[b], org[b]);
-      s[b]->randomize ();
+      s[b]->configure (d, VP_T, 1);
     }
+  for (unsigned b = 0; b < 3; ++b)
+    for (unsigned i = in.n; i < VP_T; ++i)
+      if (s[b]->m_cnt[i] != 0)
+        in.valid = false;
+  if (!in.valid)
+    return;
   l.add_union ({sub[0], sub[1], sub[2]});
   std::shared_ptr <op> x = std::make_shared <op_ifelse> (l, u, org[0], s[0], org[1], s[1], org[2], s[2]);
   reslog log;
-  drive <VP_T * VP_M + 1> (x, *u, l, in, log);
+  drive (x, *u, l, in, log, VP_T * VP_M + 1);
   denot F[VP_T];
   for (unsigned i = 0; i < VP_T; ++i)
     {
       F[i].n = 0;
-      if (s[0]->m_cnt[in.tok[i]] > 0)
-        app (F[i], *s[1], in.tok[i]);
+      if (s[0]->m_cnt[i] > 0)
+        app (F[i], *s[1], i);
       else
-        app (F[i], *s[2], in.tok[i]);
+        app (F[i], *s[2], i);
     }
   check (in, F, log, 2);
 }
 
 // ------------------------------------------------------------------ SUBX keep=1: (input, S)
 // result = input stack + the top value of each sub-result
-VP_HARNESS (c01_subx)
+#define N_ONE (NIN * ipow (VP_MAXC + 1, VP_T))
+VP_SCENARIOS (c01_subx, N_ONE)
 {
+  cfgdec d {k};
   layout l;
   auto u = std::make_shared <U_src> (l);
   inputs in;
-  nd_inputs (in, *u);
+  mk_inputs (d, in, *u);
   auto origin = std::make_shared <op_origin> (l);
   auto s = std::make_shared <S_map> (l, origin);
-  s->randomize ();
+  s->configure (d, VP_T, VP_MAXC);
+  for (unsigned i = in.n; i < VP_T; ++i)
+    if (s->m_cnt[i] != 0)
+      in.valid = false;
+  if (!in.valid)
+    return;
   std::shared_ptr <op> x = std::make_shared <op_subx> (l, u, origin, s, 1);
   // drive by hand: results have depth 3 = [i, tok_i, out]
   scon sc {l};
@@ -297,31 +354,36 @@ VP_HARNESS (c01_subx)
               if (i < in.n)
                 {
                   vp_assert (tok_at (*r, 1) == in.tok[i], "subx: the caller's stack is intact below the kept value");
-                  unsigned k = got[i]++;
-                  vp_assert (k < s->m_cnt[in.tok[i]], "subx: not more results than the sub-expression yields");
-                  if (k < VP_M)
-                    vp_assert (tok_at (*r, 0) == s->m_out[in.tok[i]][k], "subx: kept value is the sub-result's top, in order");
+                  unsigned kk = got[i]++;
+                  vp_assert (kk < s->m_cnt[i], "subx: not more results than the sub-expression yields");
+                  if (kk < VP_M)
+                    vp_assert (tok_at (*r, 0) == s->m_out[i][kk], "subx: kept value is the sub-result's top, in order");
                 }
             }
         }
       vp_assert (drained, "subx: terminates");
     }
-  for (unsigned i = 0; i < VP_T; ++i)
-    if (i < in.n)
-      vp_assert (got[i] == s->m_cnt[in.tok[i]], "subx: one result per sub-result for every input");
+  for (unsigned i = 0; i < in.n; ++i)
+    vp_assert (got[i] == s->m_cnt[i], "subx: one result per sub-result for every input");
   x->state_des (sc);
 }
 
 // ------------------------------------------------------------------ CAPTURE: [S]
-VP_HARNESS (c01_capture)
+VP_SCENARIOS (c01_capture, N_ONE)
 {
+  cfgdec d {k};
   layout l;
   auto u = std::make_shared <U_src> (l);
   inputs in;
-  nd_inputs (in, *u);
+  mk_inputs (d, in, *u);
   auto origin = std::make_shared <op_origin> (l);
   auto s = std::make_shared <S_map> (l, origin);
-  s->randomize ();
+  s->configure (d, VP_T, VP_MAXC);
+  for (unsigned i = in.n; i < VP_T; ++i)
+    if (s->m_cnt[i] != 0)
+      in.valid = false;
+  if (!in.valid)
+    return;
   std::shared_ptr <op> x = std::make_shared <op_capture> (u, origin, s);
   scon sc {l};
   x->state_con (sc);
@@ -352,10 +414,10 @@ VP_HARNESS (c01_capture)
                   if (seq != nullptr)
                     {
                       auto const &vv = *seq->get_seq ();
-                      vp_assert (vv.size () == s->m_cnt[in.tok[i]], "capture: sequence length = number of sub-results");
-                      for (unsigned k = 0; k < VP_M; ++k)
-                        if (k < vv.size ())
-                          vp_assert (static_cast <value_tok const &> (*vv[k]).m_tok == s->m_out[in.tok[i]][k],
+                      vp_assert (vv.size () == s->m_cnt[i], "capture: sequence length = number of sub-results");
+                      for (unsigned kk = 0; kk < VP_M; ++kk)
+                        if (kk < vv.size ())
+                          vp_assert (static_cast <value_tok const &> (*vv[kk]).m_tok == s->m_out[i][kk],
                                      "capture: sequence keeps the order of the sub-results");
                     }
                 }
@@ -369,13 +431,15 @@ VP_HARNESS (c01_capture)
 }
 
 // ------------------------------------------------------------------ nesting: ALT inside an OR branch
-// ((S0, S1) || S2)
-VP_HARNESS (c01_alt_in_or)
+// ((S0, S1) || S2), counts 0..1
+#define N_THREE (NIN * ipow (8, VP_T))
+VP_SCENARIOS (c01_alt_in_or, N_THREE)
 {
+  cfgdec d {k};
   layout l;
   auto u = std::make_shared <U_src> (l);
   inputs in;
-  nd_inputs (in, *u);
+  mk_inputs (d, in, *u);
   auto o = std::make_shared <op_or> (l, u);
   auto origin0 = std::make_shared <op_origin> (l);
   auto merge = std::make_shared <op_merge> (l, origin0);
@@ -384,42 +448,49 @@ VP_HARNESS (c01_alt_in_or)
     {
       auto tine = std::make_shared <op_tine> (*merge, b);
       s[b] = std::make_shared <S_map> (l, tine);
-      s[b]->randomize ();
+      s[b]->configure (d, VP_T, 1);
       merge->add_branch (s[b]);
     }
   o->add_branch (origin0, merge);
   auto origin1 = std::make_shared <op_origin> (l);
   s[2] = std::make_shared <S_map> (l, origin1);
-  s[2]->randomize ();
+  s[2]->configure (d, VP_T, 1);
   o->add_branch (origin1, s[2]);
+  for (unsigned b = 0; b < 3; ++b)
+    for (unsigned i = in.n; i < VP_T; ++i)
+      if (s[b]->m_cnt[i] != 0)
+        in.valid = false;
+  if (!in.valid)
+    return;
   reslog log;
-  drive <VP_T * 2 * VP_M + 1> (o, *u, l, in, log);
+  drive (o, *u, l, in, log, VP_T * 2 + 1);
   denot F[VP_T];
   for (unsigned i = 0; i < VP_T; ++i)
     {
       F[i].n = 0;
-      app (F[i], *s[0], in.tok[i]);
-      app (F[i], *s[1], in.tok[i]);
+      app (F[i], *s[0], i);
+      app (F[i], *s[1], i);
       if (F[i].n == 0)
-        app (F[i], *s[2], in.tok[i]);
+        app (F[i], *s[2], i);
     }
   check (in, F, log, 2);
 }
 
 // ------------------------------------------------------------------ nesting: ALT inside an ALT branch
-// (S0, (S1, S2) S3)   -- the nested merge is re-fed through the outer tine
-VP_HARNESS (c01_alt_in_alt)
+// (S0, (S1, S2))   -- the nested merge is re-fed through the outer tine
+VP_SCENARIOS (c01_alt_in_alt, N_THREE)
 {
+  cfgdec d {k};
   layout l;
   auto u = std::make_shared <U_src> (l);
   inputs in;
-  nd_inputs (in, *u);
+  mk_inputs (d, in, *u);
   auto outer = std::make_shared <op_merge> (l, u);
   std::shared_ptr <S_map> s[3];
   {
     auto tine = std::make_shared <op_tine> (*outer, 0);
     s[0] = std::make_shared <S_map> (l, tine);
-    s[0]->randomize ();
+    s[0]->configure (d, VP_T, 1);
     outer->add_branch (s[0]);
   }
   {
@@ -429,20 +500,26 @@ VP_HARNESS (c01_alt_in_alt)
       {
         auto itine = std::make_shared <op_tine> (*inner, b);
         s[1 + b] = std::make_shared <S_map> (l, itine);
-        s[1 + b]->randomize ();
+        s[1 + b]->configure (d, VP_T, 1);
         inner->add_branch (s[1 + b]);
       }
     outer->add_branch (inner);
   }
+  for (unsigned b = 0; b < 3; ++b)
+    for (unsigned i = in.n; i < VP_T; ++i)
+      if (s[b]->m_cnt[i] != 0)
+        in.valid = false;
+  if (!in.valid)
+    return;
   reslog log;
-  drive <VP_T * 3 * VP_M + 1> (outer, *u, l, in, log);
+  drive (outer, *u, l, in, log, VP_T * 3 + 1);
   denot F[VP_T];
   for (unsigned i = 0; i < VP_T; ++i)
     {
       F[i].n = 0;
-      app (F[i], *s[0], in.tok[i]);
-      app (F[i], *s[1], in.tok[i]);
-      app (F[i], *s[2], in.tok[i]);
+      app (F[i], *s[0], i);
+      app (F[i], *s[1], i);
+      app (F[i], *s[2], i);
     }
   check (in, F, log, 2);
 }
